@@ -252,6 +252,25 @@ CLAIMED = {
         "(not provable here). Titles containing a double quote are outside the LilyPond domain (the header is not escaped). "
         "Two defects repaired by fix: commits (14be814, deaaf2d).",
    design="§4 C19"),
+ "C20": dict(
+   text="Models of StringTuning (frets, notes, the fingering recursion with span filter and sort, the chord-fingering lookup "
+        "table with its follow recursion, fingers_needed), the registry searches over the 77 add_tuning calls, and the whole "
+        "tablature module (begin_track, from_Note/NoteContainer/Bar/Track/Composition, headers, layout) as lists of lines - "
+        "compared line by line with the implementation. Lean, unbounded: findFrets_spec / findFrets_range (fret = semitone "
+        "distance when within 0..maxfret, else None, for ANY tuning incl. courses), getNote_spec / getNote_range; "
+        "mem_findFingering (the fingerings returned are EXACTLY the assignments of distinct strings, each sounding its note, "
+        "that pass the span filter - soundness and completeness for any tuning, notes, max distance), strings_distinct, "
+        "findFingering_sorted (ordered by total fret number); getTuning_sound / getTunings_sound / countOk_spec (only "
+        "tunings satisfying every constraint, for ANY registry); fromNote_equal_lengths (equal string lines for any fitting "
+        "single-string tuning, note, width) with beginTrack_lengths and centred_length; registered_labels_fit (whole registry, "
+        "kernel). Tie A: the add_tuning calls = the model's table, every statement of tunings.py and tablature.py, the "
+        "default tuning.",
+   note=TRUST + "Partial: soundness of find_chord_fingering (pitch classes, coverage, span, one entry per string) and the "
+        "column-by-column decodability of bar/track/composition tablature are decided by the correspondence and the independent "
+        "oracle (brute-force fingering specification, ASCII decoder), not proved; chord fingerings and tablature are only "
+        "exercised on tunings without courses (find_note_names and begin_track cannot handle a course). Two defects repaired by "
+        "fix: commits (2c9d6fc, 84be0a7).",
+   design="§4 C20"),
  "C04": dict(
    text="Whole-table kernel evaluation (decide +kernel) of everything the statement says about each of the 30 keys, the 15 "
         "relative couples, the key objects and signature<->key inversion; unbounded theorems for rejections (any string, any "
